@@ -165,6 +165,13 @@ def check(run: Run) -> None:
 
     mism = run_items(run, items)
     report_unexplained(run, mism, explained, "corr_assign (Model.Writer.dumps of the value after a single-field assignment)")
+    # unspecified fields take the type's zero value - also after other instances were mutated and after the type was extended
+    for prob in F.default_sharing_problems():
+        if "C17" == "C17" or "add_field" in " ".join(prob["history"]):
+            failures += 1
+            n_oracle += 1
+            run.report("C17/construction-default", {"definition": "fixed default-construction histories (vf/props/_family.py)", "ops": [{"op": "history", **prob}]})
+
     F.obligation_fallback(run, ok, bool(failures or mism))
     F.finish_cov(run, items, mism,
                  "part 1: per round 6 structure classes with the SAME field count in one cstruct object (names permuted, reversed, keyword-like, identical shapes in two classes): "
